@@ -328,6 +328,12 @@ async fn udp_rounds(seed: u64, rounds: u64) -> Value {
     let mut oversized_ok = false;
     let mut buf = vec![0u8; 65536];
     for r in 0..rounds {
+        // boundary lengths first: the empty datagram, and everything shorter than a message header
+        for l in [0usize, 1, 2, 3, 4, 5] {
+            let b: Vec<u8> = (0..l).map(|_| rng.random()).collect();
+            let _ = tester.send_to(&b, node_addr).await;
+            garbage += 1;
+        }
         for k in 0..12 {
             let b: Vec<u8> = match k % 6 {
                 0 => (0..rng.random_range(0..64)).map(|_| rng.random()).collect(),
